@@ -484,6 +484,14 @@ def check_percolation(ctx):
             ctx.ob('R5', fi, f'for {norm_text(lp.target)} in peaks', not exits,
                    'all peaks are examined' if not exits else
                    f'the search over the peaks stops early (`{norm_text(exits[0])}`): a later peak with a cheaper percolating path is never tried')
+    # ... and no return is decided by one particular peak before (or instead of) the search over all of them
+    for st_ in walk_no_nested(body):
+        if isinstance(st_, ast.If) and any(isinstance(w, ast.Return) for b_ in st_.body for w in [b_] + list(walk_no_nested(b_))):
+            one_peak = [x for x in ast.walk(st_.test) if isinstance(x, ast.Subscript) and norm_text(x.value) == 'peaks'
+                        and isinstance(x.slice, (ast.Constant, ast.UnaryOp))]
+            if one_peak:
+                ctx.ob('R5', fi, st_.test, False, f'the result is decided from the single peak `{norm_text(one_peak[0])}` before the other peaks are tried: '
+                                                  f'when that peak has no percolating path the paths through the other peaks are never found')
     restores = [n for n in ast.walk(body) if isinstance(n, ast.Assign) and norm_text(n.targets[0]) == 'best_path.dims']
     if not restores:
         # on values: the `dims` of the returned path object
